@@ -7,6 +7,10 @@ import typing as t
 import typing_extensions as te
 
 
+class Slug(str):
+    """A user-defined str subclass."""
+
+
 # ---------------------------------------------------------------------------------------------- enums
 class Color(enum.Enum):
     RED = 1
@@ -219,6 +223,39 @@ class Dept:
 class Emp:
     n: int
     dept: t.Optional[Dept] = None
+
+
+class NTree(t.NamedTuple):  # recursive NamedTuple (a tuple subclass)
+    v: int
+    parent: t.Optional["NTree"] = None
+
+
+class TDNode(t.TypedDict):  # recursive TypedDict (a dict at runtime)
+    v: int
+    kids: list["TDNode"]
+
+
+@dataclasses.dataclass
+class Host:  # dataclass <-> NamedTuple
+    v: int
+    item: t.Optional["Item"] = None
+
+
+class Item(t.NamedTuple):
+    n: int
+    host: t.Optional[Host] = None
+
+
+@dataclasses.dataclass
+class Cyc:  # a cycle with one *direct* class member (Ind.direct)
+    v: int
+    back: t.Optional["Ind"] = None
+
+
+@dataclasses.dataclass
+class Ind:
+    v: int
+    direct: Cyc
 
 
 # ---------------------------------------------------------------------------------------------- wrappers
